@@ -16,6 +16,12 @@
 (*                      "fwd" (the received array itself, unchanged)       *)
 (*              share = i > 0: the sent array is the very array send i     *)
 (*                      sends (a duplicate send of the same data)          *)
+(*              inside = j > 0: the send's holder sits INSIDE THE DATA of  *)
+(*                      send j of the same rank (nesting depth <= 2);      *)
+(*                      0: on the rank's output expression                 *)
+(*              par   = TRUE: the holder is an operand of the output       *)
+(*                      expression of its own (in parallel to the others), *)
+(*                      FALSE: on the pass-through chain of holders        *)
 (*   recvs    sequence of receive ends [dst, src, tag, use, v, on]         *)
 (*              use = "out" (feeds the rank's computed output), "asout"    *)
 (*                    (is itself an output, unchanged), "both", "none"     *)
@@ -37,7 +43,7 @@
 (* or mutated program is printed as one JSON line together with the        *)
 (* expected verdict.                                                       *)
 (***************************************************************************)
-EXTENDS Naturals, Sequences, FiniteSets, TLC, Json
+EXTENDS Integers, Sequences, FiniteSets, TLC, Json
 
 CONSTANTS MaxRanks,     \* 1..MaxRanks ranks
           MaxOps,       \* 0..MaxOps messages in a valid program
@@ -60,7 +66,16 @@ Rks == RanksOf(n)
 ---------------------------------------------------------------------------
 (* derived structure: only ends that are switched on and actually reachable *)
 (* from an output of their rank's DAG exist                                 *)
-SOn == {i \in DOMAIN sends : sends[i].on}
+\* a holder inside the data of another send exists only if that send does
+SAlive(i) == /\ sends[i].on
+             /\ sends[i].inside # 0 =>
+                  /\ sends[sends[i].inside].on
+                  /\ sends[sends[i].inside].inside # 0 => sends[sends[sends[i].inside].inside].on
+SOn == {i \in DOMAIN sends : SAlive(i)}
+NestDepth(i) == IF sends[i].inside = 0 THEN 0
+                ELSE IF sends[sends[i].inside].inside = 0 THEN 1 ELSE 2
+\* may host another holder in its data: computed data of its own, not nested too deep
+CanHost(k) == sends[k].on /\ sends[k].kind = "comp" /\ sends[k].share = 0 /\ NestDepth(k) <= 1
 \* a duplicate send of the same data has the dependencies of the send it shares with
 EffDeps(i) == IF sends[i].share > 0 THEN sends[sends[i].share].deps ELSE sends[i].deps
 RReach(j) == recvs[j].on /\ (recvs[j].use # "none" \/
@@ -186,7 +201,7 @@ AddMsg(s, d, t) ==
   /\ IF Exhaustive THEN TripNo(n, <<s, d, t>>) > cur
      ELSE \A i \in DOMAIN sends : STrip(i) # <<s, d, t>>
   /\ sends' = Append(sends, [src |-> s, dst |-> d, tag |-> t, deps |-> {}, kind |-> "comp",
-                             share |-> 0, on |-> TRUE])
+                             share |-> 0, on |-> TRUE, inside |-> 0, par |-> FALSE])
   /\ recvs' = Append(recvs, [dst |-> d, src |-> s, tag |-> t, use |-> "out", v |-> 0, on |-> TRUE])
   /\ cur' = TripNo(n, <<s, d, t>>)
   /\ UNCHANGED <<n, stored, staple, faults, phase>>
@@ -200,11 +215,17 @@ Kinds(D) == IF ~Variants THEN {"comp"}
             ELSE IF Cardinality(D) = 1 THEN {"comp", "fwd"}
             ELSE {"comp"}
 
+\* where the holder of send cur goes: <<inside, par>>
+Places == IF ~Variants THEN {<<0, FALSE>>}
+          ELSE {<<0, FALSE>>, <<0, TRUE>>} \cup
+               {<<k, FALSE>> : k \in {k \in 1..(cur - 1) : sends[k].src = sends[cur].src /\ CanHost(k)}}
+
 ChooseDeps ==
   /\ phase = "deps" /\ cur <= Len(sends)
   /\ \E D \in SUBSET {j \in DOMAIN recvs : recvs[j].dst = sends[cur].src} :
-       \E k \in Kinds(D) :
-          sends' = [sends EXCEPT ![cur].deps = D, ![cur].kind = k]
+       \E k \in Kinds(D) : \E pl \in Places :
+          sends' = [sends EXCEPT ![cur].deps = D, ![cur].kind = k,
+                                 ![cur].inside = pl[1], ![cur].par = pl[2]]
   /\ cur' = cur + 1
   /\ UNCHANGED <<n, recvs, stored, staple, faults, phase>>
 
@@ -258,12 +279,21 @@ DropRecv(j) == /\ CanFault /\ j \in DOMAIN recvs /\ recvs[j].on
                               ELSE sends[i]]
                /\ Faulted([f |-> "drop_recv", at |-> j])
 
-DupSend(i, sh) == /\ CanFault /\ i \in SOn /\ sh \in {0, i}
-                  /\ sends' = Append(sends, [src |-> sends[i].src, dst |-> sends[i].dst,
-                                             tag |-> sends[i].tag, deps |-> {}, kind |-> "comp",
-                                             share |-> sh, on |-> TRUE])
-                  /\ UNCHANGED recvs
-                  /\ Faulted([f |-> "dup_send", at |-> i, arg |-> sh])
+\* host: 0 = on the holder chain, -1 = in parallel, k > 0 = inside the data of
+\* send k (k = i: inside the data of the send it duplicates; k nested in i:
+\* depth 2), -2 = the ORIGINAL is moved inside the data of the duplicate
+DupSend(i, sh, host) ==
+  /\ CanFault /\ i \in SOn /\ sh \in {0, i}
+  /\ host \in {0, -1, -2} \cup {k \in DOMAIN sends : sends[k].src = sends[i].src /\ CanHost(k)}
+  /\ sh = i => host \in {0, -1}
+  /\ host = -2 => sends[i].inside = 0
+  /\ LET new == [src |-> sends[i].src, dst |-> sends[i].dst, tag |-> sends[i].tag,
+                  deps |-> {}, kind |-> "comp", share |-> sh, on |-> TRUE,
+                  inside |-> IF host > 0 THEN host ELSE 0, par |-> host = -1]
+         ss == Append(sends, new)
+     IN sends' = IF host = -2 THEN [ss EXCEPT ![i].inside = Len(ss), ![i].par = FALSE] ELSE ss
+  /\ UNCHANGED recvs
+  /\ Faulted([f |-> "dup_send", at |-> i, arg |-> sh, host |-> host])
 
 DupRecv(j) == /\ CanFault /\ j \in DOMAIN recvs /\ recvs[j].on
               /\ recvs' = Append(recvs, [dst |-> recvs[j].dst, src |-> recvs[j].src,
@@ -297,7 +327,8 @@ RedirectRecv(j, s) == /\ CanFault /\ j \in DOMAIN recvs /\ recvs[j].on
 \* a matched message from a rank to itself
 SelfPair(r, t) == /\ CanFault /\ r \in Rks /\ t \in 1..NTags
                   /\ sends' = Append(sends, [src |-> r, dst |-> r, tag |-> t, deps |-> {},
-                                             kind |-> "comp", share |-> 0, on |-> TRUE])
+                                             kind |-> "comp", share |-> 0, on |-> TRUE,
+                                             inside |-> 0, par |-> FALSE])
                   /\ recvs' = Append(recvs, [dst |-> r, src |-> r, tag |-> t, use |-> "out",
                                              v |-> 0, on |-> TRUE])
                   /\ Faulted([f |-> "self_pair", at |-> r, arg |-> t])
@@ -311,7 +342,8 @@ CloseCycle(i, j) == /\ CanFault /\ i \in SOn /\ j \in DOMAIN recvs /\ recvs[j].o
                     /\ Faulted([f |-> "close_cycle", at |-> i, arg |-> j])
                     /\ Cyclic'
 
-Fault == \/ \E i \in DOMAIN sends : \/ DropSend(i) \/ DupSend(i, 0) \/ DupSend(i, i)
+Fault == \/ \E i \in DOMAIN sends : \/ DropSend(i)
+                                    \/ \E sh \in {0, i} : \E h \in (-2)..Len(sends) : DupSend(i, sh, h)
                                     \/ \E t \in 1..(NTags + 1) : RetagSend(i, t)
                                     \/ \E d \in Rks : RedirectSend(i, d)
                                     \/ \E j \in DOMAIN recvs : CloseCycle(i, j)
@@ -336,7 +368,8 @@ Behaviour ==
    sends |-> [i \in DOMAIN sends |->
                 [src |-> sends[i].src, dst |-> sends[i].dst, tag |-> sends[i].tag,
                  deps |-> Seq2(EffDeps(i)), kind |-> sends[i].kind,
-                 share |-> sends[i].share, on |-> sends[i].on]],
+                 share |-> sends[i].share, on |-> sends[i].on,
+                 inside |-> sends[i].inside, par |-> sends[i].par, alive |-> SAlive(i)]],
    recvs |-> [j \in DOMAIN recvs |->
                 [dst |-> recvs[j].dst, src |-> recvs[j].src, tag |-> recvs[j].tag,
                  use |-> recvs[j].use, v |-> recvs[j].v, on |-> recvs[j].on,
